@@ -29,6 +29,11 @@ type encryptor interface {
 	Decrypt(data []byte) ([]byte, error)
 }
 
+type keyBoundEncryptor interface {
+	EncryptFor(key string, data []byte) ([]byte, error)
+	DecryptFor(key string, data []byte) ([]byte, error)
+}
+
 // aesgcmEncryptor implements the encryptor interface using AES-GCM.
 type aesgcmEncryptor struct {
 	gcm cipher.AEAD
@@ -55,19 +60,23 @@ func newAESGCMEncryptor(r io.Reader, keyB64 string) (*aesgcmEncryptor, error) {
 	return &aesgcmEncryptor{gcm: gcm, r: r}, nil
 }
 
-func (e *aesgcmEncryptor) Encrypt(data []byte) ([]byte, error) {
+func (e *aesgcmEncryptor) Encrypt(data []byte) ([]byte, error) { return e.EncryptFor("", data) }
+func (e *aesgcmEncryptor) Decrypt(data []byte) ([]byte, error) { return e.DecryptFor("", data) }
+
+// EncryptFor binds the ciphertext to the cache key (as additional data).
+func (e *aesgcmEncryptor) EncryptFor(key string, data []byte) ([]byte, error) {
 	nonce := make([]byte, e.gcm.NonceSize())
 	if _, err := io.ReadFull(e.r, nonce); err != nil {
 		return nil, err
 	}
-	ciphertext := e.gcm.Seal(nonce, nonce, data, nil)
+	ciphertext := e.gcm.Seal(nonce, nonce, data, []byte(key))
 	return ciphertext, nil
 }
 
-func (e *aesgcmEncryptor) Decrypt(data []byte) ([]byte, error) {
+func (e *aesgcmEncryptor) DecryptFor(key string, data []byte) ([]byte, error) {
 	if len(data) < e.gcm.NonceSize() {
 		return nil, errCiphertextTooShort
 	}
 	nonce, ciphertext := data[:e.gcm.NonceSize()], data[e.gcm.NonceSize():]
-	return e.gcm.Open(ciphertext[:0], nonce, ciphertext, nil)
+	return e.gcm.Open(ciphertext[:0], nonce, ciphertext, []byte(key))
 }
